@@ -226,7 +226,7 @@ var checks = []Check{
 		LevelNote:    "raw (unattributable) entries appear only if the parser leaves any; the comparison is on key-value sets",
 		Technique:    "deterministic simulation of the node under seeded block histories with fault injection (invalid blocks rejected at chosen STF stages, retries, children of rejected blocks, forks, restarts from exported state), reference-node and reference-model oracles, tape shrinking + fresh-process replay",
 		DesignRef:    "DESIGN.md §4 H4, Appendix A",
-		ExpectProbes: []string{"probe:export_roundtrip_checked", "probe:export_with_raw_entries", "fault:restart_from_export", "probe:populous_genesis_state"},
+		ExpectProbes: []string{"probe:export_roundtrip_checked", "probe:export_with_raw_entries", "fault:restart_from_export", "probe:populous_genesis_state", "probe:storage_entries_sharing_an_8_octet_state_key_prefix"},
 	},
 	{
 		Property: "C23", Harness: "h4chain", Level: "exploration",
@@ -271,7 +271,7 @@ var checks = []Check{
 		LevelNote:    "",
 		Technique:    "deterministic simulation of the node under seeded block histories with fault injection (invalid blocks rejected at chosen STF stages, retries, children of rejected blocks, forks, restarts from exported state), reference-node and reference-model oracles, tape shrinking + fresh-process replay",
 		DesignRef:    "DESIGN.md §4 H4, Appendix A",
-		ExpectProbes: []string{"probe:statistics_epoch_rollover", "probe:guarantor_credited", "probe:core_record_nonzero", "probe:service_accumulated_work", "probe:service_refinement_recorded"},
+		ExpectProbes: []string{"probe:statistics_epoch_rollover", "probe:guarantor_credited", "probe:core_record_nonzero", "probe:service_accumulated_work", "probe:service_refinement_recorded", "probe:report_with_large_counts"},
 	},
 	{
 		Property: "C35", Harness: "h4chain", Level: "exploration",
@@ -286,7 +286,7 @@ var checks = []Check{
 		LevelNote:    "at most two offenders per history so that enough keyed validators remain to author blocks; histories run the tiny parameter set, one run in six also evaluates the disputes transition alone under the full set (1023 Ed25519 validators)",
 		Technique:    "deterministic simulation of the node under seeded block histories with fault injection (invalid blocks rejected at chosen STF stages, retries, children of rejected blocks, forks, restarts from exported state), reference-node and reference-model oracles, tape shrinking + fresh-process replay",
 		DesignRef:    "DESIGN.md §4 H4, Appendix A",
-		ExpectProbes: []string{"probe:verdict_good", "probe:verdict_bad", "probe:verdict_wonky", "probe:offenders_added", "fault:invalid_block:verdict-other-vote-count", "probe:judged_report_left_pending_availability", "fault:judged_report_judged_again_with_another_class"},
+		ExpectProbes: []string{"probe:verdict_good", "probe:verdict_bad", "probe:verdict_wonky", "probe:offenders_added", "probe:disputes_evaluated_under_full_parameter_set", "fault:invalid_block:verdict-other-vote-count", "probe:judged_report_left_pending_availability", "fault:judged_report_judged_again_with_another_class"},
 	},
 	{
 		Property: "C31", Harness: "h4chain", Level: "exploration",
@@ -301,7 +301,7 @@ var checks = []Check{
 		LevelNote:    "the lookup clause rides on the reached states: times are the recorded slots, one before and one after each, 0, the head slot and a far future slot; four-slot records and arbitrary times are not explored",
 		Technique:    "deterministic simulation of the node under seeded block histories with fault injection (invalid blocks rejected at chosen STF stages, retries, children of rejected blocks, forks, restarts from exported state), reference-node and reference-model oracles, tape shrinking + fresh-process replay",
 		DesignRef:    "DESIGN.md §4 H4, Appendix A",
-		ExpectProbes: []string{"probe:preimage_integrated", "probe:historical_lookup_evaluated", "probe:historical_lookup_on_three_slot_entry", "fault:invalid_block:preimage-unsolicited", "fault:invalid_block:preimage-solicited-by-another-service-only", "fault:invalid_block:preimage-already-provided", "fault:invalid_block:preimages-unsorted", "fault:invalid_block:preimage-duplicate"},
+		ExpectProbes: []string{"probe:preimage_integrated", "probe:historical_lookup_evaluated", "probe:hundreds_of_solicited_preimages_in_genesis", "probe:historical_lookup_on_three_slot_entry", "fault:invalid_block:preimage-unsolicited", "fault:invalid_block:preimage-solicited-by-another-service-only", "fault:invalid_block:preimage-already-provided", "fault:invalid_block:preimages-unsorted", "fault:invalid_block:preimage-duplicate"},
 	},
 	{
 		Property: "C24", Harness: "h4chain", Level: "exploration",
@@ -448,7 +448,7 @@ var checks = []Check{
 		LevelNote:    "Redis server is the miniredis stand-in, a fresh server per run (keys restricted to bytes it can translate; backslash/0x80/0xff only in the memory+Pebble arm), Pebble runs on MemFS; sequential histories only, no I/O-error injection",
 		Technique:    "deterministic simulation: seeded operation/fault histories vs reference model (differential over 3 providers), tape shrinking + fresh-process replay",
 		DesignRef:    "DESIGN.md §4 H5, §5 C27",
-		ExpectProbes: []string{"probe:iter_start_not_prefix", "probe:batch_commit", "probe:batch_discard", "probe:glob_meta_key", "probe:empty_key", "probe:empty_value", "fault:scribble_args", "fault:scribble_result"},
+		ExpectProbes: []string{"probe:iter_start_not_prefix", "probe:batch_commit", "probe:batch_discard", "probe:glob_meta_key", "probe:empty_key", "probe:empty_value", "fault:scribble_args", "fault:scribble_result", "fault:store_restarted", "probe:populated_store_hundreds_of_entries", "probe:large_batch_left_open"},
 	},
 }
 
